@@ -1,5 +1,6 @@
 import NbioVerif.Properties.C03
 import NbioVerif.Lemmas.SrcBridgeConn
+import NbioVerif.Lemmas.SrcBridgeLife
 #print axioms Life.li_run
 #print axioms Life.li_runAll
 #print axioms Life.runAll_run
@@ -17,3 +18,7 @@ import NbioVerif.Lemmas.SrcBridgeConn
 #print axioms Life.c03_dial
 #print axioms Life.c03_dial_timer
 #print axioms ConnFull.src_masks_wellformed
+#print axioms Life.interest_mandatory
+#print axioms Life.interest_src
+#print axioms Life.interest_wrappers
+#print axioms Life.interest_hangup
